@@ -184,6 +184,25 @@ func vC09Scenario(name string, seed uint64) string {
 			return "close-hangs/" + strings.Join(vParked(), ",")
 		}
 		return w.aftermath(time.Since(start), bound)
+	case "reconnect-after-several-failures":
+		// the reconnect loop has failed several times (its pauses have grown) and is pausing when Close lands:
+		// the pause must end with the connection's context, not run its course
+		vTimerReset(4) // the first four pauses end at once, the fifth never does
+		w, err := vC09Setup(r)
+		if err != nil || !w.ready() {
+			return "setup"
+		}
+		vStop(w.ls.S, 3*time.Second)
+		w.px.CutAll()
+		if !vWaitUntil(20*time.Second, func() bool { return len(vTimerPeek()) >= 5 || w.px.DialCount() >= 6 }) {
+			return "gate-script-infeasible/loop-did-not-fail-five-times"
+		}
+		time.Sleep(20 * time.Millisecond)
+		start := time.Now()
+		if !vClose(w.cc, 6*time.Second) {
+			return "close-hangs/" + strings.Join(vParked(), ",")
+		}
+		return w.aftermath(time.Since(start), bound)
 	case "inbound-burst":
 		skey, ckey := vGenKey(r), vGenKey(r)
 		rs := vStartRawServer(skey, ckey.Pub)
@@ -432,7 +451,7 @@ func vC09Scenario(name string, seed uint64) string {
 	return "unknown-scenario"
 }
 
-var vC09Names = []string{"idle-longer-than-write-timeout", "calls-in-flight", "inbound-requests-with-slow-handlers", "reconnect-in-progress", "inbound-burst", "concurrent-close", "close-right-after-dial", "write-fails-with-message-in-hand", "peer-closed-first", "close-while-call-is-being-prepared"}
+var vC09Names = []string{"idle-longer-than-write-timeout", "calls-in-flight", "inbound-requests-with-slow-handlers", "reconnect-in-progress", "inbound-burst", "concurrent-close", "close-right-after-dial", "write-fails-with-message-in-hand", "peer-closed-first", "close-while-call-is-being-prepared", "reconnect-after-several-failures"}
 
 func TestVerifC09Child(t *testing.T) {
 	spec := vChildSpec()
